@@ -229,6 +229,36 @@ pub fn run(ctx: &Ctx) -> CheckOutput {
             }));
         }
     }
+    // a spike of 1e15..1e17 before ordinary values: once it has left the window the definition over the
+    // window must hold again (a correlation has no scale: nothing of the spike may remain)
+    for kind in [Kind::Cti, Kind::Net, Kind::CenterOfGravity] {
+        for n in if quick { vec![3usize, 5, 8, 13] } else { vec![3, 4, 5, 6, 8, 9, 13, 16, 24] } {
+            let spec = Spec::un(kind, n, Spec::echo());
+            jobs.push(Box::new(move || {
+                let mut st = Stats::default();
+                let sink = Sink::new();
+                for p in [vec![1e17], vec![0.0, 1e17, 0.0], vec![-1e15, 1e15, 5.0], vec![1e17, -1e17, 1e17, 2.0]] {
+                    let drivers: Vec<(&'static str, Vec<f64>)> = phase_drivers(n, 2).into_iter().map(|d| ("spike prefix, then phases", cat(&p, &d))).collect();
+                    let len = drivers.iter().map(|d| d.1.len()).max().unwrap_or(0);
+                    let at: std::collections::BTreeSet<usize> = (p.len() + n - 1..len).collect();
+                    ref_drivers_sparse::<f64>("C06", &spec, &drivers, &at, &mut st, &sink, &|h, hf, v, out| oracle::<f64>(kind, n, h, hf, v, out));
+                }
+                JobOut { stats: st, viols: sink.take(), samples: vec![json!({"explorer":"LONG","scalar":"f64","view":spec.name(),"driver":"4 spike prefixes (1e15..1e17) x every sequence of <= 2 phases; judged once the spike has left the window"})] }
+            }));
+        }
+    }
+    // scale families: a run past 2^16 updates, a window past 2^8
+    for kind in [Kind::Cti, Kind::Net, Kind::CenterOfGravity] {
+        for (label, n, len, at) in scale_families(&|n| n, quick, false, kind == Kind::Net) {
+            let spec = Spec::un(kind, n, Spec::echo());
+            jobs.push(Box::new(move || {
+                let mut st = Stats::default();
+                let sink = Sink::new();
+                ref_drivers_sparse::<f64>("C06", &spec, &scale_drivers(len, n), &at, &mut st, &sink, &|h, hf, v, out| oracle::<f64>(kind, n, h, hf, v, out));
+                JobOut { stats: st, viols: sink.take(), samples: vec![json!({"explorer":"LONG (sparse oracle)","scalar":"f64","view":spec.name(),"family":label,"steps":len,"judged_steps":at.len(),"drivers":4})] }
+            }));
+        }
+    }
     let o = run_jobs(jobs, ctx.seed);
     CheckOutput {
         stats: o.stats,
